@@ -1,4 +1,572 @@
-//! C14: harness domain (stub).
+//! C14: distribution headers and the atom cache.
+//!
+//! Tie (T): `encode_with_dist_header(_multi)` vs `DistHeader.encodeDist` (the hash-set order of the atoms is read off
+//! the real output and handed to the model, which must reproduce the bytes exactly); `decode_with_atom_cache` over
+//! message sequences sharing one `AtomCache` vs `DistHeader.decodeSeq`.
+//! Oracle (P): the independent reader `Spec.DistHeader.readMessage/readSeq` on the library's bytes and on the
+//! histories of the sender model below.  Harness-side checks (X): the library reads its own output back identically;
+//! the library resolves every reference of a conforming sender's history to the atom the sender meant.
+use crate::canon::{hex, hexarg, term_text};
+use crate::oracle::oracle_for;
+use crate::rng::Rng;
+use crate::tgen::{gen_term, Cfg};
 use crate::Ctx;
+use erltf::decoder::AtomCache;
+use erltf::types::{Atom, ExternalFun, ExternalPid, ExternalPort, ExternalReference, InternalFun};
+use erltf::OwnedTerm;
+use std::collections::{BTreeMap, HashMap};
 
-pub fn run(_ctx: &mut Ctx) {}
+fn atoms_arg(order: &[String]) -> String {
+    if order.is_empty() {
+        return "-".into();
+    }
+    order.iter().map(|a| if a.is_empty() { "e".to_string() } else { hex(a.as_bytes()) }).collect::<Vec<_>>().join(",")
+}
+
+/// the atoms of a term in traversal order (the harness's own traversal, mirrors what a header must list)
+fn collect(t: &OwnedTerm, out: &mut Vec<String>) {
+    let add = |a: &Atom, out: &mut Vec<String>| {
+        let s = a.as_str().to_string();
+        if !out.contains(&s) {
+            out.push(s);
+        }
+    };
+    match t {
+        OwnedTerm::Atom(a) => add(a, out),
+        OwnedTerm::Tuple(l) | OwnedTerm::List(l) => l.iter().for_each(|e| collect(e, out)),
+        OwnedTerm::ImproperList { elements, tail } => {
+            elements.iter().for_each(|e| collect(e, out));
+            collect(tail, out)
+        }
+        OwnedTerm::Map(m) => m.iter().for_each(|(k, v)| {
+            collect(k, out);
+            collect(v, out)
+        }),
+        OwnedTerm::Pid(p) => add(&p.node, out),
+        OwnedTerm::Port(p) => add(&p.node, out),
+        OwnedTerm::Reference(r) => add(&r.node, out),
+        OwnedTerm::ExternalFun(f) => {
+            add(&f.module, out);
+            add(&f.function, out)
+        }
+        OwnedTerm::InternalFun(f) => {
+            add(&f.module, out);
+            add(&f.pid.node, out);
+            f.free_vars.iter().for_each(|e| collect(e, out))
+        }
+        _ => {}
+    }
+}
+
+/// read the atom order off a header written in the library's layout (every reference new: index, length, text)
+fn observed_order(bytes: &[u8], long: bool) -> Option<Vec<String>> {
+    if bytes.len() < 3 || bytes[0] != 131 || bytes[1] != 68 {
+        return None;
+    }
+    let n = bytes[2] as usize;
+    if n == 0 {
+        return Some(vec![]);
+    }
+    let mut p = 3 + n / 2 + 1;
+    let mut out = vec![];
+    for _ in 0..n {
+        p += 1; // internal index
+        let len = if long {
+            let l = u16::from_be_bytes([*bytes.get(p)?, *bytes.get(p + 1)?]) as usize;
+            p += 2;
+            l
+        } else {
+            let l = *bytes.get(p)? as usize;
+            p += 1;
+            l
+        };
+        let text = bytes.get(p..p + len)?;
+        p += len;
+        out.push(String::from_utf8(text.to_vec()).ok()?);
+    }
+    Some(out)
+}
+
+fn dec_pair(cache: &mut AtomCache, b: &[u8]) -> (String, Option<(OwnedTerm, Option<OwnedTerm>)>) {
+    let r = std::panic::catch_unwind(std::panic::AssertUnwindSafe(|| erltf::decode_with_atom_cache(b, cache)));
+    match r {
+        Ok(Ok((c, p))) => {
+            let s = format!("ok {} {}", term_text(&c), p.as_ref().map(term_text).unwrap_or("-".into()));
+            (s, Some((c, p)))
+        }
+        Ok(Err(erltf::errors::DecodeError::TrailingData(n))) => (format!("trailing {}", n), None),
+        Ok(Err(_)) => ("err".into(), None),
+        Err(_) => ("panic".into(), None),
+    }
+}
+
+/// wire normal form of a term (strings come back as binaries, wide integers as big integers, …)
+fn norm(t: &OwnedTerm) -> Option<OwnedTerm> {
+    erltf::decode(&erltf::encode(t).ok()?).ok()
+}
+
+/// one encoder case: tie, spec oracle, own round trip
+fn enc_case(ctx: &mut Ctx, tag: &str, terms: &[OwnedTerm]) {
+    let refs: Vec<&OwnedTerm> = terms.iter().collect();
+    let res = std::panic::catch_unwind(|| {
+        if refs.len() == 1 { erltf::encode_with_dist_header(refs[0]) } else { erltf::encode_with_dist_header_multi(&refs) }
+    });
+    let mut atoms = vec![];
+    terms.iter().for_each(|t| collect(t, &mut atoms));
+    let long = atoms.iter().any(|a| a.len() > 255);
+    let texts: Vec<String> = terms.iter().map(term_text).collect();
+    ctx.count(&format!("enc_atoms_{}", match atoms.len() { 0 => "0", 1 => "1", 2..=8 => "2to8", 9..=254 => "9to254", 255 => "255", _ => "over255" }));
+    ctx.count(if atoms.len() % 2 == 0 { "enc_even" } else { "enc_odd" });
+    if long {
+        ctx.count("enc_long_atoms");
+    }
+    match res {
+        Err(_) => {
+            ctx.tie(tag, &format!("c14enc ? {}", texts.join(" ")), "panic");
+            ctx.fail("c14-encode-panic", &texts.join(" "));
+        }
+        Ok(Err(_)) => {
+            ctx.count("enc_err");
+            ctx.tie(tag, &format!("c14enc ? {}", texts.join(" ")), "err");
+            // an error is admissible only beyond the header's limits (or the term codec's own size limits)
+            let big = atoms.len() > 255 || atoms.iter().any(|a| a.len() > 65535);
+            if !big && terms.iter().all(|t| erltf::encode(t).is_ok()) {
+                ctx.fail("c14-encode-refused", &format!("{} atoms, longest {}", atoms.len(), atoms.iter().map(|a| a.len()).max().unwrap_or(0)));
+            }
+        }
+        Ok(Ok(bytes)) => {
+            ctx.count("enc_ok");
+            if atoms.len() > 255 || atoms.iter().any(|a| a.len() > 65535) {
+                ctx.fail("c14-limit-not-enforced", &format!("{} atoms, longest {}", atoms.len(), atoms.iter().map(|a| a.len()).max().unwrap_or(0)));
+            }
+            let order = observed_order(&bytes, long);
+            let oarg = match &order { Some(o) => atoms_arg(o), None => "?".into() };
+            ctx.tie(tag, &format!("c14enc {} {}", oarg, texts.join(" ")), &format!("ok {}", hex(&bytes)));
+            let Some(orc) = oracle_for(&bytes) else { ctx.count("skipped_oracle_too_large"); return };
+            // the independent reader reads the same terms (values), every atom intact
+            ctx.prop("c14-spec-reads-other", &format!("c14spec {} {} {}", orc, hex(&bytes), texts.join(" ")), "ok");
+            // the library's own decoder reads it back identically
+            let mut cache = AtomCache::new();
+            let (s, got) = dec_pair(&mut cache, &bytes);
+            ctx.tie(tag, &format!("c14seq {} {}", orc, hex(&bytes)), &s);
+            let want: Vec<Option<OwnedTerm>> = terms.iter().map(norm).collect();
+            let ok = match (&got, want.as_slice()) {
+                (Some((c, None)), [Some(w)]) => c == w && term_text(c) == term_text(w),
+                (Some((c, Some(p))), [Some(w), Some(wp)]) => c == w && p == wp && term_text(c) == term_text(w) && term_text(p) == term_text(wp),
+                _ => false,
+            };
+            if !ok {
+                ctx.fail("c14-own-roundtrip", &format!("{} -> {}", texts.join(" "), s));
+            }
+        }
+    }
+}
+
+fn atom_of_len(i: usize, len: usize) -> String {
+    let base = format!("a{}_", i);
+    if len == 0 {
+        return String::new();
+    }
+    let mut s: String = base.chars().take(len).collect();
+    while s.len() < len {
+        // multi-byte filler now and then
+        if s.len() + 2 <= len && (s.len() + i) % 7 == 0 { s.push('é') } else { s.push('x') }
+    }
+    s
+}
+
+/// a control tuple + payload containing exactly the given atoms (spread over tuple, list, map, pid, fun positions)
+fn terms_with_atoms(r: &mut Rng, atoms: &[String]) -> Vec<OwnedTerm> {
+    let mut items: Vec<OwnedTerm> = vec![];
+    for (i, a) in atoms.iter().enumerate() {
+        let at = Atom::new(a.as_str());
+        items.push(match (i + r.below(3) as usize) % 6 {
+            0 => OwnedTerm::Pid(ExternalPid::new(at, 1 + i as u32, 0, 3)),
+            1 => OwnedTerm::Reference(ExternalReference::new(at, 7, vec![1, 2, 3])),
+            2 => OwnedTerm::Port(ExternalPort::new(at, 9, 2)),
+            3 => OwnedTerm::ExternalFun(ExternalFun::new(at.clone(), at, 2)),
+            _ => OwnedTerm::Atom(at),
+        });
+    }
+    // every atom twice now and then, so references repeat
+    if !items.is_empty() && r.chance(1, 2) {
+        let k = r.below(items.len() as u64) as usize;
+        items.push(items[k].clone());
+    }
+    let split = if items.is_empty() { 0 } else { r.below(items.len() as u64 + 1) as usize };
+    let payload: Vec<OwnedTerm> = items.split_off(split);
+    let control = OwnedTerm::Tuple(std::iter::once(OwnedTerm::Integer(6)).chain(items).collect());
+    let payload = match r.below(3) {
+        0 => OwnedTerm::List(payload),
+        1 => OwnedTerm::Tuple(payload),
+        _ => {
+            let mut m = BTreeMap::new();
+            for (i, p) in payload.into_iter().enumerate() {
+                m.insert(OwnedTerm::Integer(i as i64), p);
+            }
+            OwnedTerm::Map(m)
+        }
+    };
+    vec![control, payload]
+}
+
+// ---------------------------------------------------------------------------------------------------------------
+// a conforming sender with an atom cache (written from the protocol, not from the library)
+
+fn put_atom(v: &mut Vec<u8>, a: &str, pos: &HashMap<String, u8>) {
+    if let Some(i) = pos.get(a) {
+        v.push(82);
+        v.push(*i);
+    } else if a.len() <= 255 {
+        v.push(119);
+        v.push(a.len() as u8);
+        v.extend_from_slice(a.as_bytes());
+    } else {
+        v.push(118);
+        v.extend_from_slice(&(a.len() as u16).to_be_bytes());
+        v.extend_from_slice(a.as_bytes());
+    }
+}
+
+fn put_pid(v: &mut Vec<u8>, p: &ExternalPid, pos: &HashMap<String, u8>) {
+    v.push(88);
+    put_atom(v, p.node.as_str(), pos);
+    v.extend_from_slice(&p.id.to_be_bytes());
+    v.extend_from_slice(&p.serial.to_be_bytes());
+    v.extend_from_slice(&p.creation.to_be_bytes());
+}
+
+fn put_term(v: &mut Vec<u8>, t: &OwnedTerm, pos: &HashMap<String, u8>) {
+    match t {
+        OwnedTerm::Atom(a) => put_atom(v, a.as_str(), pos),
+        OwnedTerm::Tuple(l) => {
+            if l.len() <= 255 {
+                v.push(104);
+                v.push(l.len() as u8);
+            } else {
+                v.push(105);
+                v.extend_from_slice(&(l.len() as u32).to_be_bytes());
+            }
+            l.iter().for_each(|e| put_term(v, e, pos));
+        }
+        OwnedTerm::List(l) if l.is_empty() => v.push(106),
+        OwnedTerm::List(l) => {
+            v.push(108);
+            v.extend_from_slice(&(l.len() as u32).to_be_bytes());
+            l.iter().for_each(|e| put_term(v, e, pos));
+            v.push(106);
+        }
+        OwnedTerm::ImproperList { elements, tail } => {
+            v.push(108);
+            v.extend_from_slice(&(elements.len() as u32).to_be_bytes());
+            elements.iter().for_each(|e| put_term(v, e, pos));
+            put_term(v, tail, pos);
+        }
+        OwnedTerm::Map(m) => {
+            v.push(116);
+            v.extend_from_slice(&(m.len() as u32).to_be_bytes());
+            for (k, x) in m.iter() {
+                put_term(v, k, pos);
+                put_term(v, x, pos);
+            }
+        }
+        OwnedTerm::Pid(p) => put_pid(v, p, pos),
+        OwnedTerm::Port(p) => {
+            v.push(120);
+            put_atom(v, p.node.as_str(), pos);
+            v.extend_from_slice(&p.id.to_be_bytes());
+            v.extend_from_slice(&p.creation.to_be_bytes());
+        }
+        OwnedTerm::Reference(r) => {
+            v.push(90);
+            v.extend_from_slice(&(r.ids.len() as u16).to_be_bytes());
+            put_atom(v, r.node.as_str(), pos);
+            v.extend_from_slice(&r.creation.to_be_bytes());
+            r.ids.iter().for_each(|i| v.extend_from_slice(&i.to_be_bytes()));
+        }
+        OwnedTerm::ExternalFun(f) => {
+            v.push(113);
+            put_atom(v, f.module.as_str(), pos);
+            put_atom(v, f.function.as_str(), pos);
+            v.push(97);
+            v.push(f.arity);
+        }
+        OwnedTerm::InternalFun(f) => {
+            let mut b = vec![f.arity];
+            b.extend_from_slice(&f.uniq);
+            b.extend_from_slice(&f.index.to_be_bytes());
+            b.extend_from_slice(&f.num_free.to_be_bytes());
+            put_atom(&mut b, f.module.as_str(), pos);
+            put_term(&mut b, &OwnedTerm::Integer(f.old_index as i64), pos);
+            put_term(&mut b, &OwnedTerm::Integer(f.old_uniq as i64), pos);
+            put_pid(&mut b, &f.pid, pos);
+            f.free_vars.iter().for_each(|e| put_term(&mut b, e, pos));
+            v.push(112);
+            v.extend_from_slice(&((b.len() + 4) as u32).to_be_bytes());
+            v.extend_from_slice(&b);
+        }
+        // leaves without atoms: any valid encoding will do; take the plain one
+        other => v.extend_from_slice(&erltf::encode(other).expect("leaf encodes")[1..]),
+    }
+}
+
+struct Sender {
+    slots: HashMap<(u8, u8), String>,
+    salt: u64,
+    /// how many internal indices / segments the hash may select (small numbers force collisions and overwrites)
+    idx_space: u64,
+    seg_space: u64,
+}
+
+impl Sender {
+    fn slot_of(&self, a: &str) -> (u8, u8) {
+        let mut h = 0xcbf29ce484222325u64 ^ self.salt;
+        for b in a.as_bytes() {
+            h = (h ^ *b as u64).wrapping_mul(0x100000001b3);
+        }
+        (((h >> 8) % self.seg_space) as u8, (h % self.idx_space) as u8)
+    }
+
+    /// one header-mode message for these terms; returns the bytes and whether any reference was `old`
+    fn send(&mut self, r: &mut Rng, terms: &[OwnedTerm], stats: &mut Vec<&'static str>) -> Vec<u8> {
+        let mut atoms = vec![];
+        terms.iter().for_each(|t| collect(t, &mut atoms));
+        r.shuffle(&mut atoms);
+        // references: at most one atom per slot in one message, at most 255, lengths that fit
+        let mut entries: Vec<(String, (u8, u8), bool)> = vec![];
+        for a in atoms {
+            let s = self.slot_of(&a);
+            if entries.len() == 255 || a.len() > 65535 || entries.iter().any(|e| e.1 == s) || r.chance(1, 12) {
+                stats.push("hist_inline_atom");
+                continue; // sent inline
+            }
+            let held = self.slots.get(&s) == Some(&a);
+            let new = !held || r.chance(1, 10);
+            if !held && self.slots.contains_key(&s) {
+                stats.push("hist_overwrite");
+            }
+            stats.push(if new { "hist_new_ref" } else { "hist_old_ref" });
+            if new {
+                self.slots.insert(s, a.clone());
+            }
+            entries.push((a, s, new));
+        }
+        let need_long = entries.iter().any(|e| e.2 && e.0.len() > 255);
+        let long = need_long || r.chance(1, 8);
+        if long {
+            stats.push("hist_long_flag");
+        }
+        let n = entries.len();
+        let mut v = vec![131u8, 68, n as u8];
+        if n > 0 {
+            let mut nibs: Vec<u8> = entries.iter().map(|e| (if e.2 { 8 } else { 0 }) | e.1 .0).collect();
+            nibs.push(if long { 1 } else { 0 });
+            if nibs.len() % 2 == 1 {
+                nibs.push(0);
+            }
+            for c in nibs.chunks(2) {
+                v.push(c[0] | (c[1] << 4));
+            }
+            for (a, s, new) in &entries {
+                v.push(s.1);
+                if *new {
+                    if long { v.extend_from_slice(&(a.len() as u16).to_be_bytes()) } else { v.push(a.len() as u8) }
+                    v.extend_from_slice(a.as_bytes());
+                }
+            }
+            if entries.iter().enumerate().any(|(i, e)| e.1 .1 as usize != i) {
+                stats.push("hist_position_ne_index");
+            }
+            if entries.iter().any(|e| e.1 .0 != 0) {
+                stats.push("hist_segment_nonzero");
+            }
+        }
+        let pos: HashMap<String, u8> = entries.iter().enumerate().map(|(i, e)| (e.0.clone(), i as u8)).collect();
+        terms.iter().for_each(|t| put_term(&mut v, t, &pos));
+        v
+    }
+}
+
+fn remap(t: &OwnedTerm, pool: &[String]) -> OwnedTerm {
+    let m = |a: &Atom| -> Atom {
+        let mut h = 7u64;
+        for b in a.as_str().as_bytes() {
+            h = h.wrapping_mul(31).wrapping_add(*b as u64);
+        }
+        Atom::new(pool[(h % pool.len() as u64) as usize].as_str())
+    };
+    match t {
+        OwnedTerm::Atom(a) => OwnedTerm::Atom(m(a)),
+        OwnedTerm::Tuple(l) => OwnedTerm::Tuple(l.iter().map(|e| remap(e, pool)).collect()),
+        OwnedTerm::List(l) => OwnedTerm::List(l.iter().map(|e| remap(e, pool)).collect()),
+        OwnedTerm::ImproperList { elements, tail } => OwnedTerm::ImproperList {
+            elements: elements.iter().map(|e| remap(e, pool)).collect(),
+            tail: Box::new(remap(tail, pool)),
+        },
+        OwnedTerm::Map(mm) => OwnedTerm::Map(mm.iter().map(|(k, v)| (remap(k, pool), remap(v, pool))).collect()),
+        OwnedTerm::Pid(p) => OwnedTerm::Pid(ExternalPid::new(m(&p.node), p.id, p.serial, p.creation)),
+        OwnedTerm::Port(p) => OwnedTerm::Port(ExternalPort::new(m(&p.node), p.id, p.creation)),
+        OwnedTerm::Reference(r) => OwnedTerm::Reference(ExternalReference::new(m(&r.node), r.creation, r.ids.clone())),
+        OwnedTerm::ExternalFun(f) => OwnedTerm::ExternalFun(ExternalFun::new(m(&f.module), m(&f.function), f.arity)),
+        OwnedTerm::InternalFun(f) => OwnedTerm::InternalFun(Box::new(InternalFun::new(
+            f.arity,
+            f.uniq,
+            f.index,
+            f.num_free,
+            m(&f.module),
+            f.old_index,
+            f.old_uniq,
+            ExternalPid::new(m(&f.pid.node), f.pid.id, f.pid.serial, f.pid.creation),
+            f.free_vars.iter().map(|e| remap(e, pool)).collect(),
+        ))),
+        other => other.clone(),
+    }
+}
+
+/// one history: `len` messages from a sender with its own cache; tie, spec oracle, resolution check
+fn history(ctx: &mut Ctx, tag: &str, len: usize, idx_space: u64, seg_space: u64, faults: bool) {
+    let mut pool: Vec<String> = vec!["ok", "error", "rex", "", "é", "x@h", "Elixir.Foo", "undefined", "b", "node@host"]
+        .into_iter().map(String::from).collect();
+    if ctx.rng.chance(1, 3) {
+        pool.push(atom_of_len(1, *ctx.rng.pick(&[255usize, 256, 300, 1000])));
+    }
+    let cfg = Cfg { max_depth: 3, wf: true, maps: true, local_ids: false, huge: false, funs: true };
+    let mut sender = Sender { slots: HashMap::new(), salt: ctx.rng.next(), idx_space, seg_space };
+    let mut cache = AtomCache::new();
+    let mut msgs = vec![];
+    let mut results = vec![];
+    let mut intended = vec![];
+    let mut stats = vec![];
+    let mut orcs = vec![];
+    for k in 0..len {
+        let mut terms = vec![];
+        let control = OwnedTerm::Tuple(vec![
+            OwnedTerm::Integer(6),
+            OwnedTerm::Pid(ExternalPid::new(Atom::new(ctx.rng.pick(&pool).as_str()), 5, 0, 1)),
+            OwnedTerm::Atom(Atom::new("")),
+            OwnedTerm::Atom(Atom::new(ctx.rng.pick(&pool).as_str())),
+        ]);
+        terms.push(control);
+        if ctx.rng.chance(5, 6) {
+            terms.push(remap(&gen_term(&mut ctx.rng, &cfg, 0), &pool));
+        }
+        let Some(want): Option<Vec<OwnedTerm>> = terms.iter().map(norm).collect() else { continue };
+        let before = sender.slots.clone();
+        let mut bytes = sender.send(&mut ctx.rng, &terms, &mut stats);
+        let mut expect_ok = true;
+        if faults && k + 1 == len / 2 + 1 && bytes[2] > 0 {
+            // a non-conforming message in the middle: a reference (without text) to a slot nobody filled
+            ctx.count("hist_fault_unfilled_slot");
+            let n = bytes[2] as usize;
+            let mut v = vec![131u8, 68, 1, 0x07, 0xee];
+            v.extend_from_slice(&bytes[3 + n / 2 + 1..]);
+            bytes = v;
+            expect_ok = false;
+            // the message the sender composed was never sent: its cache updates did not happen
+            sender.slots = before;
+        }
+        let Some(orc) = oracle_for(&bytes) else { ctx.count("skipped_oracle_too_large"); return };
+        if orc != "-" {
+            orcs.push(orc);
+        }
+        let (s, _) = dec_pair(&mut cache, &bytes);
+        if expect_ok {
+            let exp = format!("ok {} {}", term_text(&want[0]), want.get(1).map(term_text).unwrap_or("-".into()));
+            if s != exp {
+                ctx.fail("c14-history-misresolved", &format!("message {} of {}: sender meant {} ; library read {} ; history {}", k + 1, len, exp, s,
+                    msgs.iter().chain(std::iter::once(&hex(&bytes))).cloned().collect::<Vec<_>>().join(",")));
+            }
+            intended.push(want.iter().map(term_text).collect::<Vec<_>>().join("&"));
+        } else if s.starts_with("ok") {
+            ctx.fail("c14-unfilled-slot-accepted", &format!("{} -> {}", hex(&bytes), s));
+        }
+        msgs.push(hex(&bytes));
+        results.push((s, expect_ok));
+    }
+    if msgs.is_empty() {
+        return;
+    }
+    for s in stats {
+        ctx.count(s);
+    }
+    ctx.count("histories");
+    ctx.add("history_messages", msgs.len() as u64);
+    let orc = if orcs.is_empty() { "-".to_string() } else { orcs.join(";") };
+    ctx.tie(tag, &format!("c14seq {} {}", orc, msgs.join(",")), &results.iter().map(|r| r.0.clone()).collect::<Vec<_>>().join(";"));
+    if results.iter().all(|r| r.1) {
+        // the independent reader agrees that this history means these terms (checks the sender model against the spec)
+        ctx.prop("c14-sender-vs-spec", &format!("c14hist {} {} {}", orc, msgs.join(","), intended.join(";")), "ok");
+    }
+}
+
+pub fn run(ctx: &mut Ctx) {
+    // A. encoder: atom counts (both parities, the limit), lengths (short/long/over the limit)
+    let counts: Vec<usize> = if ctx.thorough { (0..=40).chain([63, 64, 127, 128, 129, 200, 253, 254, 255, 256, 257, 300]).collect() }
+        else { vec![0, 1, 2, 3, 4, 5, 6, 7, 8, 9, 15, 16, 127, 128, 254, 255, 256, 300] };
+    for &n in &counts {
+        for variant in 0..ctx.n(3, 8) {
+            let lens: Vec<usize> = (0..n).map(|i| match (variant, i) {
+                (0, _) => 1 + i % 5,
+                (1, 0) => 256,                    // one long atom forces the LongAtoms flag
+                (2, i) if i + 1 == n => 255,      // longest short atom, flag must stay clear
+                (3, 0) => 0,
+                (4, _) => *ctx.rng.pick(&[0usize, 1, 2, 255, 256, 300]),
+                _ => 1 + (ctx.rng.below(12) as usize),
+            }).collect();
+            // names must be distinct: the index is part of the name, the empty atom can occur once
+            let mut seen_empty = false;
+            let atoms: Vec<String> = lens.iter().enumerate().map(|(i, &l)| {
+                if l == 0 && !seen_empty { seen_empty = true; String::new() } else { atom_of_len(i, l.max(format!("a{}_", i).len())) }
+            }).collect();
+            let terms = terms_with_atoms(&mut ctx.rng, &atoms);
+            enc_case(ctx, "enc", &terms);
+            if variant == 0 {
+                enc_case(ctx, "enc1", &terms[..1]);
+            }
+        }
+    }
+    // atoms at and over the 16-bit length limit
+    for (n, len) in [(1usize, 65535usize), (2, 65535), (1, 65536), (3, 70000)] {
+        let mut atoms: Vec<String> = (0..n).map(|i| atom_of_len(i, 3)).collect();
+        atoms[0] = atom_of_len(0, len);
+        let terms = vec![OwnedTerm::Tuple(atoms.iter().map(|a| OwnedTerm::Atom(Atom::new(a.as_str()))).collect())];
+        enc_case(ctx, "enc-limit", &terms);
+    }
+    // B. random terms from the shared generator (every variant, nesting, maps, funs, identifiers)
+    let cfg = Cfg { max_depth: 4, wf: true, maps: true, local_ids: true, huge: false, funs: true };
+    for _ in 0..ctx.n(400, 20000) {
+        let c = gen_term(&mut ctx.rng, &cfg, 0);
+        let p = gen_term(&mut ctx.rng, &cfg, 0);
+        if ctx.rng.chance(1, 4) { enc_case(ctx, "enc-gen", &[c]) } else { enc_case(ctx, "enc-gen", &[c, p]) }
+    }
+    // C. histories of a conforming sender with an atom cache
+    for i in 0..ctx.n(300, 12000) {
+        let len = 1 + ctx.rng.below(8) as usize;
+        let (idx_space, seg_space) = *ctx.rng.pick(&[(256u64, 8u64), (4, 8), (2, 2), (1, 1), (256, 1), (3, 8)]);
+        history(ctx, "hist", len, idx_space, seg_space, i % 10 == 9);
+    }
+    // D. malformed and truncated headers, each followed by a well-formed message on the same cache
+    let good = erltf::encode_with_dist_header_multi(&[&OwnedTerm::Tuple(vec![OwnedTerm::Integer(2), OwnedTerm::Atom(Atom::new("ok"))]), &OwnedTerm::Atom(Atom::new("rex"))]).unwrap();
+    for _ in 0..ctx.n(300, 6000) {
+        let atoms: Vec<String> = (0..ctx.rng.below(5) as usize).map(|i| atom_of_len(i, 1 + ctx.rng.below(4) as usize)).collect();
+        let terms = terms_with_atoms(&mut ctx.rng, &atoms);
+        let refs: Vec<&OwnedTerm> = terms.iter().collect();
+        let Ok(mut b) = erltf::encode_with_dist_header_multi(&refs) else { continue };
+        match ctx.rng.below(4) {
+            0 => { let k = ctx.rng.below(b.len() as u64) as usize; b.truncate(k); ctx.count("junk_truncated") }
+            1 => { let k = ctx.rng.below(b.len() as u64) as usize; let bit = ctx.rng.below(8); b[k] ^= 1 << bit; ctx.count("junk_bitflip") }
+            2 => { if b.len() > 3 { let k = 2 + ctx.rng.below(3.min(b.len() as u64 - 2)) as usize; let x = ctx.rng.below(256) as u8; b[k] = x; } ctx.count("junk_header_byte") }
+            _ => { let k = 1 + ctx.rng.below(3) as usize; b.extend(ctx.rng.bytes(k)); ctx.count("junk_trailing") }
+        }
+        let (Some(o1), Some(o2)) = (oracle_for(&b), oracle_for(&good)) else { continue };
+        let orc = [o1, o2].into_iter().filter(|o| o != "-").collect::<Vec<_>>().join(";");
+        let orc = if orc.is_empty() { "-".to_string() } else { orc };
+        let mut cache = AtomCache::new();
+        let (s1, _) = dec_pair(&mut cache, &b);
+        let (s2, _) = dec_pair(&mut cache, &good);
+        if s1 == "panic" || s2 == "panic" {
+            ctx.fail("c14-decode-panic", &format!("{} then {}", hex(&b), hex(&good)));
+        }
+        ctx.tie("junk", &format!("c14seq {} {},{}", orc, hexarg(&b), hex(&good)), &format!("{};{}", s1, s2));
+    }
+}
